@@ -11,6 +11,8 @@
 //!   pub fn replay(toks: &[&str], out: &mut Out) -> bool                             (true if it knows the op)
 mod cls;
 mod dec;
+mod enc;
+mod encchar;
 mod label;
 mod memconv;
 mod util;
@@ -28,6 +30,8 @@ const MODULES: &[(GenFn, ReplayFn)] = &[
     (valid::generate, valid::replay),
     (memconv::generate, memconv::replay),
     (cls::generate, cls::replay),
+    (encchar::generate, encchar::replay),
+    (enc::generate, enc::replay),
 ];
 
 fn main() {
